@@ -10,6 +10,15 @@ E1_NOTE = ("Bounded: 'confirmed' means CrossHair exhausted every feasible path o
            "per-property oracle. Every counterexample is replayed concretely against /repo before it is reported.")
 
 CLAIMED = {
+    'C01': dict(text="from_data is executed symbolically for 50 type expressions (to depth 2-3, incl. 8 dataclass shapes) and 10 groups of "
+                     "equivalent spellings on symbolic interchange values (valid, near-valid and arbitrary: the kind at every position is "
+                     "a solver variable); on every feasible path the verdict must equal membership under a 200-line reference model written "
+                     "from the documentation, the result must be the deep exactly-typed image, a second call must agree, and nothing but "
+                     "ConvertError may escape.",
+                design_ref="DESIGN.md 5/C01", technique="symbolic execution (CrossHair+z3) vs reference model of the documented rules"),
+    'C02': dict(text="The matrix kind(value) x kind(target) x embedding context of the property is checked cell by cell: the value's kind is a "
+                     "symbolic selector over 12 kinds with symbolic content, acceptance must coincide with the literal allowed-relation table.",
+                design_ref="DESIGN.md 5/C02", technique="symbolic execution (CrossHair+z3) vs allowed-relation table"),
     'C03': dict(text="Symbolic execution of the real try_convert/collect_errors pair of every converter class (48 instances: "
                      "17 classes, 3 tag layouts, both dataclass layouts, hooks, raising predicates/constructors, re.compile "
                      "stubbed) over symbolic interchange values; z3 decides every branch and the obligation is discharged "
